@@ -503,8 +503,14 @@ class Gen(object):
                     ops.append(['S', [self.nonsentinel(value, depth - 1) for _ in range(d(st.integers(0, 2)))],
                                 [[kw, self.nonsentinel(value, depth - 1)] for kw in d(st.lists(st.sampled_from(['p', 'r']), max_size=2, unique=True))]])
                 else:
-                    ops.append(['*', ['val', ['list', [['i', 1], ['i', 2]]]] if d(st.booleans()) else None,
-                                ['val', ['dict', [['q', ['i', 9]]]]] if d(st.booleans()) else ['val', ['dict', []]]])
+                    kwspec = ['val', ['dict', [['q', ['i', 9]]]]] if d(st.booleans()) else ['val', ['dict', []]]
+                    if isinstance(value, dict):
+                        # keyword arguments taken from a mapping OWNED BY THE TARGET (it must not be written to)
+                        owned = sorted(k_ for k_, v_ in value.items() if isinstance(v_, dict) and isinstance(k_, str) and k_
+                                       and '.' not in k_ and all(isinstance(x, str) and x.isidentifier() for x in v_))
+                        if owned:
+                            kwspec = ['path', d(st.sampled_from(owned))]
+                    ops.append(['*', ['val', ['list', [['i', 1], ['i', 2]]]] if d(st.booleans()) else None, kwspec])
             return ['invoke', 'collect', ops]
         if k == 15:
             # a chain nested directly inside a chain, with SKIP / STOP produced inside the inner one:
